@@ -86,6 +86,9 @@ h_NC_var_shape(void)
     H4V_ND(int, rank);
     H4V_ND(int, ndims);
     H4V_ASSUME(rank >= 0 && rank <= 3 && ndims >= 1 && ndims <= VS_ND);
+#ifdef VS_MAXRANK
+    H4V_ASSUME(rank <= VS_MAXRANK);
+#endif
     H4V_ND_BUF(int, ids, rank, 3);
     s_as.count  = (unsigned)rank;
     s_as.values = ids;
@@ -106,6 +109,9 @@ h_NC_var_shape(void)
     var->assoc   = &s_as;
     var->cdf     = &s_nc;
     var->HDFsize = v_HDFsize;
+#ifdef C03_W /* one obligation per element size: keeps one factor of every product constant */
+    H4V_ASSUME(v_HDFsize == C03_W);
+#endif
     var->type    = v_type;
     var->len     = 0;
     var->shape   = NULL;
